@@ -3,6 +3,7 @@ package bubble
 import (
 	"context"
 	"math/rand"
+	"os"
 	"runtime"
 	"sync"
 	"sync/atomic"
@@ -258,6 +259,20 @@ func TestGroup(t *testing.T) {
 	w := newTraceWriter(envStr("VH_OUT", "/tmp/group.ndjson"))
 	n := envInt("VH_N", 100)
 	runs, leaks := 0, 0
+	if f := os.Getenv("VH_SCHED"); f != "" { // schedules generated by TLC from GroupEnv.tla: replayed literally
+		var scheds []struct{ Steps []grpStep }
+		readJSON(t, f, &scheds)
+		for _, s := range scheds {
+			evs, leak, msg := runGroup(t, s.Steps)
+			if leak {
+				leaks++
+			}
+			writeRuns(w, &runs, evs, leak, msg, Ev{})
+		}
+		w.close()
+		report(Ev{"engine": "bubble", "subject": "group", "runs": runs, "events": w.n, "leaks": leaks, "source": "tlc-schedules"})
+		return
+	}
 	for _, s := range directedGroup() {
 		evs, leak, msg := runGroup(t, s)
 		if leak {
